@@ -3,6 +3,7 @@ import Bpmn.Props.EngineCurrent
 import Bpmn.Props.C12Current
 import Bpmn.Props.C12Steps
 import Bpmn.Props.C12Blind
+import Bpmn.Props.C12Turns
 open Bpmn.Props.C12 Bpmn.Props.EngineCurrent
 #print axioms C12_partial
 #print axioms settle_holds_parent
@@ -16,7 +17,7 @@ open Bpmn.Props.C12 Bpmn.Props.EngineCurrent
 #print axioms current_sub_monitor_first
 #print axioms Bpmn.Props.C12Steps.enter_sub_tokens
 #print axioms Bpmn.Props.C12Steps.enter_sub_holds_parent
-#print axioms Bpmn.Props.C12Steps.enter_sub_twice_flagged
+#print axioms Bpmn.Props.C12Steps.enter_sub_twice_waits
 #print axioms Bpmn.Props.C12Steps.return_needs_empty_scope
 #print axioms Bpmn.Props.C12Steps.return_sub_once
 #print axioms Bpmn.Props.C12Steps.sub_programs_are_token_game
@@ -38,3 +39,11 @@ open Bpmn.Props.C12 Bpmn.Props.EngineCurrent
 #print axioms Bpmn.Props.C12Loop.loop_rounds
 #print axioms Bpmn.Props.C12Loop.loop_run
 #print axioms Bpmn.Props.C12Steps.loop_run_current
+#print axioms Bpmn.Props.C12Turns.arrive_subs
+#print axioms Bpmn.Props.C12Turns.arrive_oneEach
+#print axioms Bpmn.Props.C12Turns.settle_subs
+#print axioms Bpmn.Props.C12Turns.runWork_oneEach
+#print axioms Bpmn.Props.C12Turns.answer_oneEach
+#print axioms Bpmn.Props.C12Turns.runOps_oneEach
+#print axioms Bpmn.Model.Engine.nextTurn_idle
+#print axioms Bpmn.Model.Engine.nextTurn_fst
